@@ -156,9 +156,18 @@ func readAll(m mode, k keys, seq0 uint32, src io.Reader, maxPos int) []result {
 	}
 	for pos := 0; pos < maxPos; pos++ {
 		var r result
-		p, val, stack := vf.Protect(func() { r.payload, r.err = rd.ReadPacket(seq0+uint32(pos), src) })
+		p, val, stack := vf.Protect(func() { r.payload, r.err = rd.ReadPacketRaw(seq0+uint32(pos), src) })
 		if p {
 			r.panic = fmt.Sprint(val) + "\n" + stack
+		}
+		if r.payload != nil {
+			// the returned slice "may be overwritten by future calls": the reader must not need
+			// its contents any more, so the caller keeps a copy and overwrites the original
+			internal := r.payload
+			r.payload = append([]byte{}, internal...)
+			for i := range internal {
+				internal[i] ^= 0xff
+			}
 		}
 		out = append(out, r)
 		if p || r.err != nil {
@@ -441,6 +450,37 @@ func faults(c *vf.Ctx, m mode) {
 		}
 		c.Nontrivial(fmt.Sprintf("%s/injection/%d", m, i))
 	}
+	// (h) a long packet (payload 70000: several buffer sizes beyond every other stream here)
+	// followed by a short one: both bits {0x80, 0x01} of the bytes at 0..8, 2^k-1, 2^k, 2^k+1
+	// (k = 4..16) and of the last 70 bytes of the long packet (MAC/tag and padding) and every
+	// byte of the short one; truncation at the same offsets.
+	if s := mk(seqs[0], 70000, 20); s != nil {
+		n := len(s.packets[0])
+		pos := map[int]bool{}
+		for i := 0; i <= 8; i++ {
+			pos[i] = true
+		}
+		for k := 4; k <= 16; k++ {
+			for d := -1; d <= 1; d++ {
+				pos[1<<k+d] = true
+			}
+		}
+		for i := n - 70; i < len(s.orig); i++ {
+			pos[i] = true
+		}
+		for i := 0; i < len(s.orig); i++ {
+			if !pos[i] {
+				continue
+			}
+			for _, bit := range []byte{0x80, 0x01} {
+				mod := append([]byte{}, s.orig...)
+				mod[i] ^= bit
+				s.judge(c, "bit flip in a long packet or its successor", mod, func() map[string]any { return map[string]any{"byte": i, "bit": bit, "first_packet_len": n} })
+			}
+			s.judge(c, "truncation of a long packet or its successor", s.orig[:i], func() map[string]any { return map[string]any{"cut": i, "first_packet_len": n} })
+		}
+		c.Nontrivial(fmt.Sprintf("%s/long-packet", m))
+	}
 	if c.WantSample() {
 		c.Sample(map[string]any{"mode": m.String(), "faults": "bit flips, byte changes, header pairs, truncations, arrangements, injections"})
 	}
@@ -490,6 +530,35 @@ func crafter(c *vf.Ctx, m mode, k keys) func() *sshpkt.Codec {
 	return nil
 }
 
+// prefix is a history for part 2 (non-initial reader state): one valid packet with a
+// 1500-byte payload, sealed by the model with sequence number 8, and the model codec in the
+// state after it. A reader that has read it holds a buffer larger than any crafted packet
+// that follows (the reslice path instead of the allocate path).
+type prefix struct {
+	wire, payload []byte
+	cd            *sshpkt.Codec
+}
+
+func buildPrefix(c *vf.Ctx, mk func() *sshpkt.Codec) *prefix {
+	cd := mk()
+	payload := c.Bytes("hist-payload", 0, 1500)
+	padLen := 4
+	unit := 1 + len(payload) + padLen
+	if !cd.LengthInClearOrSeparate() {
+		unit += 4
+	}
+	for unit%cd.Alignment() != 0 {
+		padLen++
+		unit++
+	}
+	body := sshpkt.Frame(payload, c.Bytes("hist-pad", 0, padLen))
+	wire, err := cd.Seal(8, uint32(len(body)), body)
+	if err != nil {
+		return nil
+	}
+	return &prefix{wire: wire, payload: payload, cd: cd}
+}
+
 // totality runs in two phases. Phase 0 (guard) is cheap and decides whether the reader
 // enforces maxPacket at all: authentic complete packets just above maxPacket and headers
 // declaring up to 2^24 bytes on an endless stream. Only if it passes are the remaining
@@ -506,6 +575,7 @@ func totality(c *vf.Ctx, m mode, phase int) bool {
 		m.dead.Store(true)
 		c.Violation(class, detail)
 	}
+	var pre *prefix // when set, src starts with pre.wire (a valid packet with sequence number 8)
 	check := func(kind string, src *budgetReader, declared uint32, body []byte, authentic bool, detail map[string]any) {
 		if m.dead.Load() {
 			c.Capped("mode " + m.String() + ": cases after its first violation skipped")
@@ -513,9 +583,22 @@ func totality(c *vf.Ctx, m mode, phase int) bool {
 		}
 		c.Eval(1)
 		c.Add("cases: "+kind, 1)
-		res := readAll(m, k, 9, src, 1)
-		r := res[0]
 		detail["mode"], detail["case"], detail["declared_length"] = m.String(), kind, declared
+		skip := 0
+		var res []result
+		if pre == nil {
+			res = readAll(m, k, 9, src, 1)
+		} else {
+			skip = len(pre.wire)
+			res = readAll(m, k, 8, src, 2)
+			if len(res) < 2 || res[0].err != nil || res[0].panic != "" || !bytes.Equal(res[0].payload, pre.payload) {
+				detail["err"], detail["panic"] = fmt.Sprint(res[0].err), res[0].panic
+				viol("reader fails on the well-formed authentic packet that precedes the case: "+fam, detail)
+				return
+			}
+			res = res[1:]
+		}
+		r := res[0]
 		if r.err != nil {
 			detail["err"] = r.err.Error()
 		}
@@ -525,7 +608,7 @@ func totality(c *vf.Ctx, m mode, phase int) bool {
 			c.Outcome("panic")
 			return
 		}
-		if src.consumed > legalMax || errors.Is(r.err, errBudget) {
+		if src.consumed > legalMax+skip || errors.Is(r.err, errBudget) {
 			detail["consumed"] = src.consumed
 			viol("reader keeps consuming beyond the largest legal packet ("+kind+"): "+fam, detail)
 			return
@@ -546,7 +629,7 @@ func totality(c *vf.Ctx, m mode, phase int) bool {
 		// a returned payload must be what the framing says
 		if m.none {
 			// without encryption the packet is the first 4+declared bytes of the stream itself
-			full := append([]byte{}, src.data...)
+			full := append([]byte{}, src.data[skip:]...)
 			if src.endless && len(full) < 4+int(declared) {
 				full = append(full, make([]byte, 4+int(declared)-len(full))...)
 			}
@@ -593,6 +676,13 @@ func totality(c *vf.Ctx, m mode, phase int) bool {
 		return false
 	}
 	probe := mk()
+	var hist *prefix
+	if phase == 1 {
+		if hist = buildPrefix(c, mk); hist == nil {
+			viol("harness: model cannot seal the history packet", map[string]any{"mode": m.String()})
+			return false
+		}
+	}
 	sealable := func(l int) bool { // CBC can only carry whole blocks
 		if m.spec.Kind != sshpkt.KindCBC {
 			return true
@@ -609,7 +699,8 @@ func totality(c *vf.Ctx, m mode, phase int) bool {
 		smalls = append(smalls, l)
 	}
 	if phase == 1 {
-		smalls = append(smalls, 60, 124, 252, 254, 255, 256, 257, 258, 260, 268, 300)
+		// 1100, 1104: larger than the 1024-byte buffer a CBC reader starts with (grow-and-copy path)
+		smalls = append(smalls, 60, 124, 252, 254, 255, 256, 257, 258, 260, 268, 300, 1100, 1104)
 	}
 	for _, l := range smalls {
 		if !sealable(l) {
@@ -632,6 +723,14 @@ func totality(c *vf.Ctx, m mode, phase int) bool {
 				return false
 			}
 			check("authentic packet with arbitrary padding_length", &budgetReader{data: wire}, uint32(l), body, true, map[string]any{"packet_length": l, "padding_length": pad})
+			// the same packet read by a reader that has read a larger valid packet before
+			if c.Thorough || padBoundary(pad, l) {
+				if wire2, err := hist.cd.Clone().Seal(9, uint32(l), body); err == nil {
+					pre = hist
+					check("authentic packet with arbitrary padding_length, after a larger valid packet", &budgetReader{data: cat(hist.wire, wire2)}, uint32(l), body, true, map[string]any{"packet_length": l, "padding_length": pad})
+					pre = nil
+				}
+			}
 			// the same packet followed by an endless stream: nothing beyond it may be needed
 			if pad%51 == 0 {
 				check("authentic packet with arbitrary padding_length, endless stream", &budgetReader{data: wire, endless: true, budget: legalMax + 1}, uint32(l), body, true, map[string]any{"packet_length": l, "padding_length": pad})
@@ -661,7 +760,8 @@ func totality(c *vf.Ctx, m mode, phase int) bool {
 
 	// (d) header says L (every boundary value) x every padding_length, followed by a short
 	// body, by nothing, or by an endless stream
-	headerLens := []uint32{0, 1, 2, 3, 4, 5, 11, 12, 15, 16, 17, 27, 28, 29, 31, 32, 33, maxPacket - 4, maxPacket - 1, maxPacket, maxPacket + 1, maxPacket + 12, maxPacket + 16,
+	headerLens := []uint32{0, 1, 2, 3, 4, 5, 11, 12, 15, 16, 17, 27, 28, 29, 31, 32, 33, 255, 256, 256 + 28, 256 + 32, 65535, 65536, 65536 + 28, 65536 + 32, 1<<17 + 28, 1<<17 + 32,
+		maxPacket - 4, maxPacket - 1, maxPacket, maxPacket + 1, maxPacket + 12, maxPacket + 16,
 		1 << 20, 1<<24 - 4, 1<<31 - 1, 1 << 31, 1<<31 + 12, 1<<32 - 68, 1<<32 - 64, 1<<32 - 33, 1<<32 - 32, 1<<32 - 20, 1<<32 - 16, 1<<32 - 12, 1<<32 - 4, 1<<32 - 2, 1<<32 - 1}
 	if phase == 0 {
 		headerLens = []uint32{maxPacket + 1, maxPacket + 4, maxPacket + 12, maxPacket + 16, 2 * maxPacket, 1 << 20, 1<<24 - 4}
@@ -740,6 +840,11 @@ func totality(c *vf.Ctx, m mode, phase int) bool {
 				}
 				full := cat(wire, c.Bytes("sweep-tail", l, l+64+40))
 				check("declared-length sweep, enough seeded bytes then EOF", &budgetReader{data: full}, uint32(l), body, authentic, d())
+				if wire2, err := hist.cd.Clone().Seal(9, uint32(l), body); err == nil {
+					pre = hist
+					check("declared-length sweep, after a larger valid packet", &budgetReader{data: cat(hist.wire, wire2, c.Bytes("sweep-tail", l, l+64+40))}, uint32(l), body, authentic, d())
+					pre = nil
+				}
 				// EOF at every short cut-off (quick: one padding class, L <= 68 covers every residue mod 32 twice)
 				if pad == 4 && (c.Thorough || l <= 68) {
 					limit := 4 + l + probe.TagSize() + 8
@@ -801,6 +906,16 @@ func totality(c *vf.Ctx, m mode, phase int) bool {
 				wire := cat(be(l), ct, cd.ComputeMAC(9, be(l), ct))
 				check("EtM: valid MAC over clear length and ciphertext, every length", &budgetReader{data: cat(wire, tail)}, uint32(l), body[:l], wellFormed,
 					map[string]any{"padding_length": pad, "well_formed": wellFormed})
+				if l <= 100 {
+					cd2 := hist.cd.Clone()
+					if ct2, err := cd2.EncryptRaw(body); err == nil {
+						ct2 = ct2[:l]
+						pre = hist
+						check("EtM: valid MAC over clear length and ciphertext, after a larger valid packet", &budgetReader{data: cat(hist.wire, be(l), ct2, cd2.ComputeMAC(9, be(l), ct2), tail)}, uint32(l), body[:l], wellFormed,
+							map[string]any{"padding_length": pad, "well_formed": wellFormed})
+						pre = nil
+					}
+				}
 				if l > 100 || pad != 4 {
 					continue
 				}
@@ -856,9 +971,9 @@ func totality(c *vf.Ctx, m mode, phase int) bool {
 
 func run(c *vf.Ctx) {
 	c.Rule("part 1, every authenticated cipher x MAC pair: real-writer streams of 1..4 packets (payload lengths from {1,20,300}; thorough: first packet {1,2,7,11,20,33,300,1100} and 5-packet arrangements) x {every single-bit flip of the first packet (9 stream shapes) and of every packet of an equal-length stream, " +
-		"every byte complemented/zeroed, every pair of bit flips in the 5 header bytes, every truncation point, every arrangement (index sequences of length 0..n+1 over n<=4 packets: all drops, duplications, reorders), 6 injected blobs at every packet boundary}; " +
-		"part 2, every mode incl. none: all 1-byte streams + all streams of <=4 bytes over {00,01,7f,80,ff}; model-sealed AUTHENTIC packets with every padding_length 0..255 x packet_length {0..33} and boundary padding_lengths (all 256 in thorough) x packet_length {34..44,60,124,252..300}; authentic complete packets with packet_length maxPacket+{1,2,4,8,12,16,28,32}, 2*maxPacket; " +
-		"declared-length sweep (first block/header encrypted with the key by the model): every packet_length 5..260 and maxPacket-33..maxPacket+33 x padding_length {0,3,4,5,L-2,L-1,L,255} followed by seeded bytes+EOF, endless zeros, and EOF at every cut-off; 38 boundary length fields (0..2^32-1) x every padding_length (boundary values for lengths > 33 in quick) with short body / prefix only / endless stream. non-trivial = distinct (mode, fault family, stream shape) actually executed on the real reader; " +
+		"every byte complemented/zeroed, every pair of bit flips in the 5 header bytes, every truncation point, every arrangement (index sequences of length 0..n+1 over n<=4 packets: all drops, duplications, reorders), 6 injected blobs at every packet boundary, a 70000-byte packet + successor with bits {0x80,0x01} flipped and truncation at bytes 0..8, 2^k-1..2^k+1 (k=4..16), the last 70 bytes and every byte of the successor}; the caller overwrites every slice readCipherPacket returned before the next read; " +
+		"part 2, every mode incl. none: all 1-byte streams + all streams of <=4 bytes over {00,01,7f,80,ff}; model-sealed AUTHENTIC packets with every padding_length 0..255 x packet_length {0..33} and boundary padding_lengths (all 256 in thorough) x packet_length {34..44,60,124,252..300,1100,1104}, each boundary case also on a reader that has just read a valid 1500-byte packet (non-initial state, larger buffer), likewise the declared-length sweep and the EtM valid-MAC cases; authentic complete packets with packet_length maxPacket+{1,2,4,8,12,16,28,32}, 2*maxPacket; " +
+		"declared-length sweep (first block/header encrypted with the key by the model): every packet_length 5..260 and maxPacket-33..maxPacket+33 x padding_length {0,3,4,5,L-2,L-1,L,255} followed by seeded bytes+EOF, endless zeros, and EOF at every cut-off; 48 boundary length fields (0..2^32-1, incl. 255, 256, 2^16-1, 2^16, 2^16+28/32, 2^17+28/32) x every padding_length (boundary values for lengths > 33 in quick) with short body / prefix only / endless stream. non-trivial = distinct (mode, fault family, stream shape) actually executed on the real reader; " +
 		"oracle = invariant (payload only for positions whose bytes are untouched, equal to the written payload; error otherwise; never a panic; never more bytes consumed than the largest legal packet)")
 	c.Assume("verif/ref/sshpkt (KAT-validated) is used only to build authentic test packets; a reader is discarded after its first error, as the transport does; a MAC collision on the enumerated inputs is excluded")
 
